@@ -1319,6 +1319,9 @@ class RandomEffects(Formula):
              Covariance matrix implied by design and self.sigma.
         """
         D = self.design(term, param=param, return_float=True)
+        # design() squeezes a single random effect (column) or a single
+        # observation (row) away
+        D = np.reshape(D, (term.shape[0], -1))
         return np.dot(D, np.dot(self.sigma, D.T))
 
 
